@@ -381,6 +381,9 @@ class Model:
             except _DTypeError as ex:
                 raise RaiseSignal('DTypeError', node, interp.where(node) + f' [{ex}]') from None
         taint = a.taint or b.taint
+        if op == 'pow' and self.binned_mode and a.taint and a.dtype in INTS and b.dtype in FLOATS and unit_only is None:
+            # measured (scipp 25.4): binned integer events ** float exponent has no kernel, the dense operation has
+            raise RaiseSignal('DTypeError', node, interp.where(node) + " ['pow' does not support binned integer data with a float exponent]")
         if inplace:
             if dtype is not None and a.dtype is not None:
                 if a.dtype in INTS and dtype in FLOATS:
@@ -443,10 +446,14 @@ class Model:
             r.mag = v.mag
             return r
         if op == 'UAdd':
-            return self.new(interp, v.term, v.unit, v.dtype, v.taint, v.why)
+            r = self.new(interp, v.term, v.unit, v.dtype, v.taint, v.why)
+            r.hist, r.mag = v.hist, v.mag
+            return r
         if op == 'Invert':
             t = T.fn_not(v.term) if isinstance(v.term, Rat) else None
-            return self.new(interp, t, v.unit, v.dtype, v.taint, v.why)
+            r = self.new(interp, t, v.unit, v.dtype, v.taint, v.why)
+            r.hist = v.hist
+            return r
         raise AnalysisError(f'unary {op} at {interp.where(node)}')
 
     def compare(self, interp, sym: str, a, b, node):
@@ -465,7 +472,9 @@ class Model:
         t = None
         if isinstance(a.term, Rat) and isinstance(b.term, Rat):
             t = T.fn_cmp(sym, a.term, b.term)
-        return self.new(interp, t, DIMENSIONLESS, 'bool', a.taint or b.taint, a.why or b.why)
+        r = self.new(interp, t, DIMENSIONLESS, 'bool', a.taint or b.taint, a.why or b.why)
+        r.hist = a.hist | b.hist  # which floating-point results were compared (no rounding of its own)
+        return r
 
     def unit_eq(self, interp, a, b, node):
         if isinstance(a, Unit) and isinstance(b, Unit):
@@ -1096,6 +1105,7 @@ class Model:
         r = self.new(interp, t, x.unit, x.dtype or y.dtype, c.taint or x.taint or y.taint, c.why or x.why or y.why)
         r.hist = x.hist | y.hist | c.hist
         r.mag = MD.union(x.mag, y.mag)  # a selection computes nothing
+        interp.event('where', node, cond=c.hist, x=x.hist, y=y.hist)
         return r
 
     def sc_concat(self, interp, args, kwargs, node):
@@ -1149,7 +1159,20 @@ class Model:
     def sc_allclose(self, interp, args, kwargs, node):
         return Opaque('allclose')
 
-    sc_identical = sc_isclose = sc_issorted = sc_allsorted = sc_allclose
+    sc_identical = sc_issorted = sc_allsorted = sc_allclose
+
+    def sc_isclose(self, interp, args, kwargs, node):
+        """Element-wise closeness: an uninterpreted predicate of its operands (and tolerances)."""
+        a = _bind(['x', 'y', 'rtol', 'atol', 'equal_nan'], args, kwargs, {'rtol': None, 'atol': None, 'equal_nan': False})
+        x, y = self.lift(interp, a['x']), self.lift(interp, a['y'])
+        t = None
+        if isinstance(x.term, Rat) and isinstance(y.term, Rat):
+            tol = [v.term if isinstance(v, SVar) and isinstance(v.term, Rat) else (Rat.const(v) if isinstance(v, int | float) else Rat.sym('default_tolerance'))
+                   for v in (a['rtol'], a['atol'])]
+            t = Rat.fn('isclose', x.term, y.term, *tol)
+        if x.unit is not None and y.unit is not None and x.unit != y.unit:
+            interp.event('unit-mismatch', node, op='isclose', left=repr(x.unit), right=repr(y.unit), stmt=_text(node))
+        return self.new(interp, t, DIMENSIONLESS, 'bool', x.taint or y.taint, x.why or y.why)
 
     def sc_DataArray(self, interp, args, kwargs, node):
         a = _bind(['data', 'coords', 'masks', 'attrs', 'name'], args, kwargs,
